@@ -353,16 +353,21 @@ func CheckTree(b *cm.RootBlock) []Viol {
 	// byte is either text (in a leaf) or syntax of an inline construct (inside
 	// the span of a node with children). Punctuation that fell out of a failed
 	// construct ("[a][]" without a definition) is text like any other.
-	if b.Kind() == cm.ParagraphKind && validSpan(sp) && sp.End <= len(b.Source) {
+	// (An ATX heading at the top level additionally has its opening and
+	// closing sequences, which are '#' characters.)
+	if (b.Kind() == cm.ParagraphKind || b.Kind() == cm.ATXHeadingKind) && validSpan(sp) && sp.End <= len(b.Source) {
 		for i := sp.Start; i < sp.End; i++ {
 			ch := b.Source[i]
 			if c.cover[i] > 0 || c.inside[i] || ch == ' ' || ch == '\t' || ch == '\n' || ch == '\r' {
 				continue
 			}
+			if ch == '#' && b.Kind() == cm.ATXHeadingKind {
+				continue
+			}
 			if ch == '\\' && i+1 < sp.End && specre.IsASCIIPunctuation(b.Source[i+1]) {
 				continue
 			}
-			c.add("C03", "byte %d %q of a top-level paragraph is neither in a leaf nor inside an inline construct", i, ch)
+			c.add("C03", "byte %d %q of a top-level %v is neither in a leaf nor inside an inline construct", i, ch, b.Kind())
 			break
 		}
 	}
